@@ -4,6 +4,7 @@ package main
 // and building SSA.
 
 import (
+	"sync"
 	"fmt"
 	"os"
 	"path/filepath"
@@ -28,6 +29,11 @@ type Program struct {
 	LemmaFiles    map[string]string    // overlay target path -> source path
 	ContractFiles []string
 	Ghosts        []ParamDecl // ghost variables declared in spec files
+
+	LocalSnaps  map[string]LocalSnap // contracts/locals.json: names the contracts were written against
+	renMu       sync.Mutex
+	renCache    map[*ssa.Function]map[string]string
+	RenameNotes []string
 }
 
 const modPath = "github.com/aldas/go-modbus-client"
@@ -143,6 +149,7 @@ func LoadProgram(repo, verif string) (*Program, error) {
 			return nil, err
 		}
 	}
+	p.loadLocalSnaps()
 	return p, nil
 }
 
